@@ -16,6 +16,8 @@ LIB_SRCS = ['N2kMsg.cpp', 'N2kStream.cpp', 'N2kMessages.cpp', 'N2kTimer.cpp', 'S
             'NMEA2000.cpp', 'ActisenseReader.cpp']
 SAN = ['-fsanitize=address,undefined,float-cast-overflow', '-fno-sanitize-recover=all', '-fno-omit-frame-pointer']
 CXX = ['g++', '-std=c++11', '-O1', '-g', '-fno-access-control', '-w'] + SAN
+if os.environ.get('VERIF_COV'):
+    CXX = CXX + ['--coverage']        # development aid (tools/coverage.py): which lines of /repo/src the quick tier reaches; use with a scratch VERIF_BUILD
 FLAGSETS = {
     # 64-bit scheduler build (ESP32 / Linux): clock comes from the fake esp_timer.h in harness/fake_esp
     'w64': ['-DESP_PLATFORM', '-I' + os.path.join(VERIF, 'harness', 'fake_esp')],
@@ -457,7 +459,7 @@ def canon_impl(r):
     return r
 
 
-def correspond(run, family, harness, flagset, model_fam, cases, oracle, nontrivial=None, canon=canon_impl, known=None, model_args=()):
+def correspond(run, family, harness, flagset, model_fam, cases, oracle, nontrivial=None, canon=canon_impl, known=None, model_args=(), impl_only=False):
     """Run [cases] through the extracted model and through the C++ harness, diff, and apply the property oracle to
     what the implementation did.  oracle(case, impl_result) -> None | 'description of the failure'.
     known(case, what) -> key string of a listed known finding or None."""
@@ -470,11 +472,15 @@ def correspond(run, family, harness, flagset, model_fam, cases, oracle, nontrivi
         run.broken.append('extracted model %s does not build: %s' % (model_fam, (err or '')[-1500:]))
         return
     t = time.time()
-    mout = run_model(mexe, cases, args=model_args)
-    tm = time.time() - t
-    t = time.time()
     iout = run_impl(hexe, cases)
     ti = time.time() - t
+    t = time.time()
+    if impl_only:
+        # oracle-only family: behaviour the model does not have (stated in the family's rule); the property oracle judges the implementation
+        mout = [(canon(iout[i], cases[i]) if canon.__code__.co_argcount == 2 else canon(iout[i])) for i in range(len(cases))]
+    else:
+        mout = run_model(mexe, cases, args=model_args)
+    tm = time.time() - t
     disagreements = []
     oracle_fail = []
     keys = []
@@ -491,6 +497,8 @@ def correspond(run, family, harness, flagset, model_fam, cases, oracle, nontrivi
     fam = run.cov['families'][family]
     fam.update({'model_s': round(tm, 2), 'impl_s': round(ti, 2), 'disagreements': len(disagreements), 'oracle_failures': len(oracle_fail),
                 'flagset': flagset})
+    if impl_only:
+        fam['oracle_only'] = 'not compared with the model: the family exercises behaviour outside it'
     dist = {}
     for m in mout:
         k = m.split(' ')[0] + (' ' + m.split(' ')[1] if m.startswith(('rt ', 'ret ')) and len(m.split(' ')) > 1 and m.split(' ')[1] in ('true', 'false', '0') else '')
